@@ -10,6 +10,7 @@ mod c10;
 mod c11;
 mod c12;
 mod c13;
+mod c14;
 mod c15;
 mod c16;
 mod c19;
@@ -27,6 +28,7 @@ fn gen_all(id: &str, seed: u64, n: usize, thorough: bool) -> Vec<String> {
         "C15" => c15::gen_cases(seed, n, thorough),
         "C09" => c09::gen_cases(seed, n, thorough),
         "C12" => c12::gen_cases(seed, n, thorough),
+        "C14" => c14::gen_cases(seed, n, thorough),
         _ => panic!("unknown property {}", id),
     }
 }
@@ -42,6 +44,7 @@ fn run_line(id: &str, line: &str) -> String {
         "C15" => c15::run_line(line),
         "C09" => c09::run_line(line),
         "C12" => c12::run_line(line),
+        "C14" => c14::run_line(line),
         _ => "UNKNOWN-PROPERTY".to_string(),
     });
     match r {
